@@ -12,6 +12,7 @@ CONSTANTS
     OpFaults = FALSE
 INVARIANTS
     TypeOK
+    C10_Restored
     C10_BlockRestored
 CONSTRAINT StateConstraint
 CHECK_DEADLOCK FALSE
